@@ -26,7 +26,7 @@ func main() {
 	}
 	debug.SetGCPercent(400)
 	code := 2
-	defer func() { pprof.StopCPUProfile(); os.Exit(code) }()
+	defer func() { closeSolverPool(); pprof.StopCPUProfile(); os.Exit(code) }()
 	switch os.Args[1] {
 	case "harness":
 		code = cmdHarness(os.Args[2:])
